@@ -65,6 +65,10 @@ ThrIdx(sig, p, q) ==
 ThrTie(sig, p, q) ==
     LET mx == IMaxTo(sig, Len(sig)) IN \E k \in 1..Len(sig) : sig[k] * q = p * mx
 
+\* a rank cap r splits a group of equal singular values (then more than r indices are "top": which of the tied terms
+\* survive - and what the later bonds see - depends on the SVD's arbitrary choice inside the tied subspace)
+CapSplitsTie(sig, r) == Cardinality(TopIdx(sig, r)) > r
+
 SumSq(sig, KS) == ISumTo([k \in 1..Len(sig) |-> IF k \in KS THEN sig[k] * sig[k] ELSE 0], Len(sig))
 
 \* model-level sanity of the construction (checked by TLC in IslandTheorems):
